@@ -32,18 +32,40 @@ impl<'a> Plugin for TableAccess<'a> {
 
         let mut found = None;
 
-        visit_relations(ast, |relation| {
-            let relation = relation.to_string();
-            let parts = relation.split('.').collect::<Vec<&str>>();
-            let table_name = parts.last().unwrap();
+        // The name PostgreSQL resolves: unquoted identifiers fold to lower case,
+        // quoted ones are taken verbatim (without the quotes).
+        let resolved_name = |relation: &sqlparser::ast::ObjectName| -> Option<String> {
+            relation.0.last().map(|ident| match ident.quote_style {
+                Some(_) => ident.value.clone(),
+                None => ident.value.to_lowercase(),
+            })
+        };
 
-            if self.tables.contains(&table_name.to_string()) {
-                found = Some(table_name.to_string());
+        let _ = visit_relations(ast, |relation| match resolved_name(relation) {
+            Some(table_name) if self.tables.contains(&table_name) => {
+                found = Some(table_name);
                 ControlFlow::<()>::Break(())
-            } else {
-                ControlFlow::<()>::Continue(())
             }
+            _ => ControlFlow::<()>::Continue(()),
         });
+
+        // COPY names its table outside of what the relation visitor walks.
+        if found.is_none() {
+            for statement in ast {
+                if let Statement::Copy {
+                    source: sqlparser::ast::CopySource::Table { table_name, .. },
+                    ..
+                } = statement
+                {
+                    if let Some(table_name) = resolved_name(table_name) {
+                        if self.tables.contains(&table_name) {
+                            found = Some(table_name);
+                            break;
+                        }
+                    }
+                }
+            }
+        }
 
         if let Some(found) = found {
             debug!("Blocking access to table \"{}\"", found);
